@@ -48,10 +48,26 @@ __all__ = (
 _FIRST_CONST = Constant.first()
 NOARG = object()
 
+# Verification hook (guarded): with PYTABLEAUX_VERIF=1 node hashes come from a
+# per-process creation counter mixed with PYTABLEAUX_VERIF_ORDER, so that the
+# iteration order of node sets is reproducible and enumerable by seed.
+import os as _os
+_VERIF = _os.environ.get('PYTABLEAUX_VERIF') == '1'
+_VERIF_ORDER = int(_os.environ.get('PYTABLEAUX_VERIF_ORDER') or 0)
+_verif_serial = [0]
+def _verif_node_hash():
+    _verif_serial[0] += 1
+    n = _verif_serial[0]
+    if _VERIF_ORDER:
+        return hash((_VERIF_ORDER, n))
+    return n
+
 class Node(MapCover, abcs.Copyable, metaclass=NodeMeta):
     'A tableau node.'
 
     __slots__ = ('step', 'ticked')
+    if _VERIF:
+        __slots__ += ('_verif_hash',)
 
     def __init__(self, mapping = EMPTY_MAP, /):
         if mapping is self:
@@ -116,6 +132,12 @@ class Node(MapCover, abcs.Copyable, metaclass=NodeMeta):
         return self is other
 
     def __hash__(self):
+        if _VERIF:
+            try:
+                return self._verif_hash
+            except AttributeError:
+                self._verif_hash = _verif_node_hash()
+                return self._verif_hash
         return id(self)
 
     __delattr__ = Emsg.Attribute.razr
